@@ -6,7 +6,7 @@ from harness.lib import consumer_run
 MONITORS = {
     "C02": ["c02-increasing", "c02-no-overlap", "c02-single-fetch", "c02-faithful", "c02-prompt"],
     "C03": ["c03-commit-le-processed", "c03-one-in-flight", "c03-committed-acked", "c03-resume", "c03-failure-stops", "c03-commit-reports"],
-    "C13": ["c13-start-once", "c13-quiescent", "c13-shutdown", "c13-shutdown-inproc", "c13-no-crash", "c02-prompt", "c03-commit-reports"],
+    "C13": ["c13-start-once", "c13-fires-once", "c13-quiescent", "c13-shutdown", "c13-shutdown-inproc", "c13-no-crash", "c02-prompt", "c03-commit-reports"],
     "C14": ["c14-delays", "c14-reset", "c14-growth", "c14-never-skips", "c14-attempts"],
 }
 ALL_MONITORS = [m for p in sorted(MONITORS) for m in MONITORS[p]]
